@@ -1304,9 +1304,10 @@ def gen_history(rng, allow_dirty, size='small', allow_backward=True):
             # style None: not given (documented default 'last'); arguments by position, by keyword, or by keyword with
             # those that are None left out
             style = rng.choice(['first'] * 5 + ['last'] * 5 + ['all'] * 4 + ['bogus', None, None])
-            if rng.random() < 0.15:
+            if rng.random() < 0.15 and not allow_dirty:
                 # the caller edits a record he was handed (drops its last row in place) between two identical
-                # questions: the second answer sees the edit
+                # questions: the second answer sees the edit (not in logs with junk lines inside a block: dropping the
+                # junk line leaves a Step column of numbers held as text, whose comparison is not modelled)
                 ops.append(['flatten', style, a, b, rng.choice(['pos', 'kw', 'min'])])
                 ops.append(['droprow', rng.choice([0, 0, 1, 1, 2, 3, 5])])
             ops.append(['flatten', style, a, b, rng.choice(['pos', 'kw', 'min'])])
@@ -1654,6 +1655,11 @@ def compare_history(logs, ops, impl_out, replies, where):
     for k, res in enumerate(impl_out):
         rep = REFUSED if where[k] is None else replies[where[k]]
         if res[0] == 'err':
+            if ops[k][0] == 'flatten' and res[1] == 'err:type' and rep == 'err:attr':
+                # doubly malformed selection: a junk line put text into the Step column of one run (comparison not
+                # modelled: TypeError at the first merge) AND a later run has no Step column (the model looks for that
+                # first): both refuse, which refusal comes first is not part of the model
+                continue
             if rep != res[1]:
                 return k, f'implementation raised {res[2]} but the model answers {rep[:120]}'
             if len(res) > 3 and res[3]:
